@@ -2,3 +2,9 @@
 add('C01', 'bounded exhaustive enumeration of circuits x assignments x entry points against a reference evaluator (explicit-state, on the real code)',
     'Every circuit of F(n,k,FULL) up to the stated size, every output policy, all 2^n assignments and all seven evaluation entry points are executed on the real code and compared with the reference semantics; duplicated gate tables are compared entry by entry. Exhaustive within the bound, silent about larger circuits.',
     'trusted: vmc/refmodel.py gate table + evaluator (300 lines), CPython; bound n+k<=5', 'DESIGN.md 4 C01')
+add('C03', 'bounded exhaustive enumeration of circuits x output policies x passes/pipelines, reference truth-table oracle',
+    'Every circuit of F(n,k,A) up to the stated size, every output policy and every pass / cleanup / two-pass pipe is run on the real code; the result is compared with the reference truth table row by row, the interface, size and well-formedness are checked and the argument is re-abstracted to show it was not modified. Exhaustive within the bound.',
+    'trusted: vmc/refmodel.py; bound n+k<=5 (unary family k<=4)', 'DESIGN.md 4 C03')
+add('C18', 'bounded exhaustive enumeration of circuits x passes x pipeline expressions; postcondition predicates and pipeline-vs-sequencing comparison',
+    'Postconditions of the five passes are evaluated as predicates on every result over F(n,k,A); 97 pipeline expressions (pipes, lists, nested compositions, cleanup) are compared with manual sequencing of .transform on every circuit. Exhaustive within the bound.',
+    'trusted: vmc/refmodel.py reachability/evaluator; bound n+k<=5', 'DESIGN.md 4 C18')
